@@ -22,11 +22,12 @@ def setup(rng, mode=None, owners=False, links=False, bad=False, popts=False, rel
         read = "readdirs 0 " + args; hist = "history " + args
         pre = []
     elif mode == 1:                                 # econf_readConfig* with ROOT_PREFIX, project, usr_subdir
-        layers = [b"/r/usr/lib/proj", b"/r/run/proj", b"/r/etc/proj"]
+        usr = rng.choice([b"/usr/lib", b"/usr/lib", b"/usr/lib", None])        # no vendor sub-directory given: "<prefix>/<project>"
+        layers = [b"/r/usr/lib/proj" if usr else b"/r/proj", b"/r/run/proj", b"/r/etc/proj"]
         cmds += trees.populate(rng, layers, name, sfx, confdirs, owners=owners, links=links)
         opts = b"ROOT_PREFIX=/r" + (b";CONFIG_DIRS=" + b":".join(confdirs) if confdirs else b"")
         pre = ["newopts 0 " + enc(opts)]
-        read = "readconfig 0 %s %s %s %s x3d x23" % (enc(b"proj"), enc(b"/usr/lib"), enc(name), enc(sfx))
+        read = "readconfig 0 %s %s %s %s x3d x23" % (enc(b"proj"), enc(usr), enc(name), enc(sfx))
     elif mode == 2:                                 # econf_readConfig* with PARSING_DIRS
         layers = [b"/a", b"/b/c", b"/d"]
         cmds += trees.populate(rng, layers, name, sfx, confdirs, owners=owners, links=links)
